@@ -5,7 +5,7 @@ EXTENDS StrainMeasure, Judge
 Check(name, b) == IF b THEN {} ELSE {name}
 MeasureName(sm) == IF sm = 0 THEN "CAUCHY" ELSE IF sm = 1 THEN "PK2" ELSE "PK1"
 Request(tk) == IF tk < 0 THEN "NO_STIFFNESS" ELSE FlavourOf(tk)
-Law(o) == IF o.beh = "VfHyperGL" THEN "svk" ELSE "hencky"
+Law(o) == IF o.beh \in {"VfHyperGL", "VfHyperPS"} THEN "svk" ELSE "hencky"
 SeqEq(a, b) == Len(a) = Len(b) /\ \A i \in 1..Len(a) : a[i] = b[i]
 \* the harness made the requests of the specification, once each
 ShapeOK(o) ==
@@ -44,6 +44,16 @@ FailsGL(o) ==
                         o.tangent[tk + 1].tight /\ o.tangent[tk + 1].m = SvkTangent(tk, o.l2, o.mu, o.n, F0, F1))
                   \cup Check("svk:prediction:" \o FlavourOf(tk),
                              o.pred[tk + 1].tight /\ o.pred[tk + 1].m = SvkTangent(tk, o.l2, o.mu, o.n, F0, F0)) : tk \in 0..3}
+\* plane stress hypotheses: the stresses are those of the oracle at the complete gradient F1 (axial stretch included), whatever the
+\* axial stretch at the beginning of the step, and the axial strain written back is (a1^2 - 1) / 2
+FailsPS(o) ==
+  LET F0 == OfRowMajor(o.F0) F1 == OfRowMajor(o.F1) IN
+  Check("svk:scale", o.J = Det(F1) /\ o.J0 = Det(F0))
+  \cup Check("svk:plane-stress:shape", Len(o.calls) = 3 /\ \A i \in 1..Len(o.calls) : o.calls[i].sm = i - 1)
+  \cup UNION {LET c == o.calls[i] IN
+              Check("svk:plane-stress:stress:" \o MeasureName(c.sm), c.ret = 1 /\ c.tight /\ SeqEq(c.v, SvkStress(c.sm, o.l2, o.mu, F1)))
+              \cup Check("svk:plane-stress:axial-strain", c.etight /\ c.ezz2 = o.a1 * o.a1 - 1) : i \in 1..Len(o.calls)}
+  \cup Check("svk:call-failed", o.allok)
 FailsLog(o) ==
   LET c == [k |-> o.k, q |-> o.q, r |-> o.r, l2 |-> o.l2, mu |-> o.mu]
       ES(sm) == HStress(sm, c)
@@ -69,6 +79,7 @@ FailsCycle(o) ==
 Fails(o) ==
   IF o.threw THEN {Law(o) \o ":exception"}
   ELSE IF o.kind = "cycle" THEN FailsCycle(o)
+  ELSE IF o.kind = "ps" THEN FailsPS(o)
   ELSE IF ~ShapeOK(o) THEN {"shape"}
   ELSE ClassFails(o) \cup (IF o.kind = "gl" THEN FailsGL(o) ELSE FailsLog(o))
 ASSUME JudgeAll(Fails)
